@@ -256,6 +256,95 @@ def run(ctx):
                                    case=show, impl=ii[:500], model=mo[:500]), has_input=False)
         else:
             ctx.cov["traces_validated_against_impl"] += 1
+    # a union-typed element holds exactly one alternative: a document in which it holds two (the same one twice, or two different ones) does
+    # not fit the type and is refused - never read as its first or its last child
+    dcases, dmeta = [], []
+    for k in range(len(vals)):
+        if len(dcases) >= (60 if ctx.quick else 600) or docs[k] == b"ser-failed":
+            continue
+        tree = parse_tree(docs[k])
+        roots = [n for n in (tree or []) if n[0] == "E"]
+        if len(roots) != 1:
+            continue
+        found = []
+        def walk(kids, T, depth):
+            e = sch["types"].get(T)
+            if e is None or depth > 8:
+                return
+            if e["ser"]["kind"] == "union":
+                if sum(1 for n in kids if n[0] == "E") == 1:
+                    found.append((kids, T))
+                return
+            for f, kd in kinds(sch, T):
+                if "named" not in f["ty"]:
+                    continue
+                for n in kids:
+                    if n[0] == "E" and n[1] == f["elem"]:
+                        if kd in ("KWrap", "KWrapReq"):
+                            for m_ in n[2]:
+                                if m_[0] == "E":
+                                    walk(m_[2], f["ty"]["named"], depth + 1)
+                        else:
+                            walk(n[2], f["ty"]["named"], depth + 1)
+        walk(roots[0][2], vals[k][0], 0)
+        if not found:
+            continue
+        kids, UT = found[k % len(found)]
+        child = [n for n in kids if n[0] == "E"][0]
+        alts = [a["elem"] for a in sch["types"][UT]["ser"]["alts"]]
+        other = [a for a in alts if a != child[1]]
+        for kind, extra in (("same-alternative-twice", child), ("another-alternative-after", ["E", other[0], [["T", b"x"]]] if other else None),
+                            ("another-alternative-before", ["E", other[-1], [["T", b"x"]]] if other else None)):
+            if extra is None:
+                continue
+            saved = list(kids)
+            kids[:] = ([extra] + saved) if kind.endswith("before") else (saved + [extra])
+            esc = lambda t: t.replace(b"&", b"&amp;").replace(b"<", b"&lt;").replace(b">", b"&gt;")
+            def show_(n, top=False):
+                if n[0] == "T":
+                    return esc(n[1])
+                return b"<" + n[1].encode() + (b' xmlns="http://s3.amazonaws.com/doc/2006-03-01/"' if top else b"") + b">" + b"".join(show_(x_) for x_ in n[2]) + b"</" + n[1].encode() + b">"
+            m = show_(roots[0], True)
+            kids[:] = saved
+            dcases.append(dict(op="xml_reser", type=vals[k][0], doc=m.hex())); dmeta.append((vals[k][0], UT, kind, m))
+    if dcases:
+        for (T, UT, kind, m), x in zip(dmeta, vlib.run_impl("c13", dcases)):
+            ctx.cov["evaluations"] += 1
+            i = x.get("out", "panic:" + x.get("panic", ""))
+            ctx.count("union-two-children." + kind + "." + i.split(":")[0])
+            if not i.startswith("err:"):
+                ctx.violation(dict(stage="decode", kind="a union element (%s) holding two alternatives (%s) is not refused" % (UT, kind),
+                                   case=dict(op="decode", type=T, document=m.decode("utf8", "replace")), impl=i[:300]))
+            else:
+                ctx.cov["traces_validated_against_impl"] += 1
+                ctx.nontrivial((T, UT, "two-children", kind, i[:40]))
+    # bytes that are not UTF-8 make a document ill-formed wherever they stand: in a plain text, and in a text that arrives in pieces
+    # (interrupted by a comment or a processing instruction, next to a CDATA section) - the pieces are one text and are refused like one
+    ucases, umeta = [], []
+    for k in range(len(vals)):
+        if len(ucases) >= (40 if ctx.quick else 400):
+            break
+        d = docs[k]
+        leaves = [x for x in re.finditer(rb">([^<&]{2,})<", d)] if d != b"ser-failed" else []
+        if not leaves:
+            continue
+        x = leaves[k % len(leaves)]; t = x.group(1); c = 1 + k % (len(t) - 1)
+        bad = [b"\xff", b"\xc3", b"\xe4\xb8", b"\xf0\x9f\x98", b"\x80", b"\xed\xa0\x80"][k % 6]
+        for kind, rep in (("plain", t[:c] + bad + t[c:]), ("comment-then-bad", t[:c] + b"<!--x-->" + bad + t[c:]), ("bad-then-comment", t[:c] + bad + b"<!--x-->" + t[c:]),
+                          ("pi-split", t[:c] + b"<?p q?>" + bad + t[c:]), ("next-to-cdata", t[:c] + bad + b"<![CDATA[" + t[c:] + b"]]>"),
+                          ("after-cdata", b"<![CDATA[" + t[:c] + b"]]>" + bad + t[c:])):
+            m = d[:x.start(1)] + rep + d[x.end(1):]
+            ucases.append(dict(op="xml_reser", type=vals[k][0], doc=m.hex())); umeta.append((vals[k][0], kind, m))
+    for (T, kind, m), x in zip(umeta, vlib.run_impl("c13", ucases)):
+        ctx.cov["evaluations"] += 1
+        i = x.get("out", "panic:" + x.get("panic", ""))
+        ctx.count("not-utf8." + kind + "." + i.split(":")[0])
+        if not i.startswith("err:"):
+            ctx.violation(dict(stage="decode", kind="a document whose text holds bytes that are not UTF-8 (%s) is not refused" % kind,
+                               case=dict(op="decode", type=T, document_hex=m.hex(), document=m.decode("utf8", "replace")), impl=i[:300]))
+        else:
+            ctx.cov["traces_validated_against_impl"] += 1
+            ctx.nontrivial((T, "not-utf8", kind, i[:40]))
     # replay of the known finding: an ACL document as an independent restXml client writes it (xsi:type as an attribute)
     known = vlib.known_findings("C13")
     acl = (b'<AccessControlPolicy xmlns="http://s3.amazonaws.com/doc/2006-03-01/"><Owner><ID>o</ID></Owner><AccessControlList><Grant>'
